@@ -113,6 +113,13 @@ def must_reject(lines):
             for big in bigs:
                 out.append((f'line {i}: value {big} outside its field',
                             lines[:i] + [f'{m.group(1)}{m.group(2)} {big}'] + lines[i + 1:]))
+    # a local label used from another region (after a later non-local label, after an origin): not resolvable from there
+    local_defs = [(i, re.match(r'^(\.\w+):', l).group(1)) for i, l in enumerate(lines) if re.match(r'^(\.\w+):', l)]
+    for di, name in local_defs:
+        for i in range(di + 1, len(lines)):
+            if re.match(r'^[A-Za-z]\w*:', lines[i]) or lines[i].strip().startswith('.org'):
+                for use in (f'    .2byte {name}', f'    jmp {name}', f'    ldi a, {name} + 1'):
+                    out.append((f'line {i}: local label {name} used after {lines[i].split()[0]} (another region): unresolvable label', lines[:i + 1] + [use] + lines[i + 1:]))
     return out
 
 
@@ -161,7 +168,7 @@ def meta(tier):
         'rule': 'base programs (6, together using every line kind incl. includes, macros, zones, strings, conditionals) x every single '
                 'deviation: drop / duplicate / garble (5 characters) each token, drop / duplicate each line, insert a zero-length '
                 'directive at each position, and the four must-reject replacements (undefined label, unknown mnemonic, operands no '
-                'variant accepts, a stray comma or a stray character after the operands, value just outside its field on either side), a directive with an unresolvable label inserted at each '
+                'variant accepts, a local label used from another region, a stray comma or a stray character after the operands, value just outside its field on either side), a directive with an unresolvable label inserted at each '
                 'position (also directives that emit nothing: .fill 0, x); the repository\'s example programs (quick: the small ones) damaged one line at a time (dropped, doubled, first word garbled, last character dropped) under rotating output configurations, judged on the invariants; expression-length family (N in 8,16,24,32,64 tokens in every expression position); long-word family (an operand, string or '
                 'bracket that is opened and never closed, followed by one word of 16..64 characters or many short ones, in 25 positions); '
                 'empty-image family (5 programs that assemble to no byte at all x configurations x output pre-seeded / absent: the image must exist afterwards); '
